@@ -1,4 +1,4 @@
 From Coq Require Extraction.
 From Coq Require Import ExtrOcamlBasic.
-From NV Require Import Base.Witness Sinks.Sink.
-Extraction "model.ml" nv_types_witness write_all sink_flush lw_run lw_out bw_run ideal_sink.
+From NV Require Import Base.Witness Sinks.Sink Sinks.Mt Sinks.Format.
+Extraction "model.ml" nv_types_witness write_all sink_flush lw_run lw_out bw_run ideal_sink mt_model mt_nblocks fob_run cram_run.
